@@ -105,6 +105,15 @@ def make_explicit(stms, pool):
         ctx.step(('load', how))
         find_matches('___')       # warm whatever caches exist for the loaded submission
         judge(ctx, P, pat, what, exp, explicit=True)
+        # ... and again after code that does not parse was searched: what was found before is found again
+        if not ctx.fails:
+            try:
+                find_matches('___', P + "oops = (\n")
+            except Exception as e:
+                ctx.fail({'symptom': 'find_matches raised on code that does not parse', 'exception': type(e).__name__}, program=P)
+            judge(ctx, P, pat, what, exp, explicit=True)
+            for sig, det in ctx.fails:
+                sig.setdefault('after', 'a search in code that does not parse')
         # and the loaded submission is still searched by default afterwards
         try:
             if not find_matches(Q):
@@ -117,7 +126,7 @@ def make_explicit(stms, pool):
 
 WARM_OUTER = ["for _i_ in __e__:\n    ___", "_t_ = __e__", "print(__e__)", "if __e__:\n    ___", "while __e__:\n    ___",
               "_t_ = _f_(__e__, ___)", "___ = ___ + __e__"]
-WARM_INNER = ["range(___)", "___ + ___", "_v_", "___[___]", "___ < ___"]
+WARM_INNER = ["range(___)", "___ + ___", "_v_", "___[___]", "___ < ___", "_t_ + ___", "_i_", "_t_"]
 
 
 def make_after_submatch(stms, pool):
@@ -141,7 +150,18 @@ def make_after_submatch(stms, pool):
         subs = 0
         try:
             for m in find_matches(outer):
-                subs += 1 + len(m['__e__'].find_matches(inner))
+                node = m['__e__']
+                found = node.find_matches(inner)
+                subs += 1 + len(found)
+                # every way of asking whether the sub-pattern occurs gives the same answer: the plural and the
+                # singular call, continuing the earlier match or not
+                for prev in (True, False):
+                    plural = node.find_matches(inner, use_previous=prev)
+                    single = node.find_match(inner, use_previous=prev)
+                    if (single is None) != (len(plural) == 0):
+                        ctx.fail({'symptom': 'find_match() misses (or invents) an occurrence that find_matches() reports',
+                                  'use_previous': prev}, program=code, outer=outer, inner=inner, plural=len(plural),
+                                 singular=single is not None)
         except Exception as e:
             ctx.fail({'symptom': 'two-level search raised', 'exception': type(e).__name__}, program=code, outer=outer,
                      inner=inner, message=str(e)[:200])
